@@ -5,6 +5,7 @@ package drv
 import (
 	"bufio"
 	"encoding/json"
+	"fmt"
 	"math/rand"
 	"os"
 	"runtime"
@@ -13,6 +14,7 @@ import (
 	"sync"
 	"sync/atomic"
 	"testing"
+	"time"
 
 	mocker "github.com/tencent/goom"
 	"github.com/tencent/goom/internal/bytecode/memory"
@@ -83,9 +85,18 @@ func TestVerifConcStress(t *testing.T) {
 		f    func(int) int
 		def  interface{}
 		orig int
+		gen  bool // instantiation of a generic function (no parameters)
 	}
-	tgts := []tgt{{fn.F, fn.F, 1000}, {fn.G, fn.G, 2000}, {fn.H, fn.H, 3000}}
+	tgts := []tgt{{fn.F, fn.F, 1000, false}, {fn.G, fn.G, 2000, false}, {fn.H, fn.H, 3000, false},
+		{func(int) int { return fn.Gen[int]() }, fn.Gen[int], 4000, true}}
 	for r := 0; r < rounds; r++ {
+		// a round takes milliseconds; one that does not finish is a deadlock between builders (dump and give up)
+		wd := time.AfterFunc(time.Duration(envIntOr("VERIF_ROUND_S", 60))*time.Second, func() {
+			buf := make([]byte, 1<<20)
+			n := runtime.Stack(buf, true)
+			fmt.Fprintf(os.Stderr, "VERIF-HANG round %d did not reach quiescence\n%s\n", r, buf[:n])
+			os.Exit(3)
+		})
 		var wg sync.WaitGroup
 		stop := int32(0)
 		yields := make([][]int, len(tgts))
@@ -117,7 +128,11 @@ func TestVerifConcStress(t *testing.T) {
 					for y := 0; y < yields[i][it*4]; y++ {
 						runtime.Gosched()
 					}
-					b.Func(tg.def).Apply(func(a int) int { return 5000 + 100*(i+1) + a })
+					if tg.gen {
+						b.Func(tg.def).Apply(func() int { return 5000 + 100*(i+1) + 5 })
+					} else {
+						b.Func(tg.def).Apply(func(a int) int { return 5000 + 100*(i+1) + a })
+					}
 					call(5000 + 100*(i+1) + 5)
 					b.Func(tg.def).Return(9000 + i)
 					call(9000 + i)
@@ -164,6 +179,7 @@ func TestVerifConcStress(t *testing.T) {
 		wg.Wait()
 		atomic.StoreInt32(&stop, 1)
 		cwg.Wait()
+		wd.Stop()
 		// quiescence: only the steady target's entry and its placeholder may differ from the pristine image
 		sym := fn.Pkg + ".(*S).H"
 		ph := fn.Pkg + ".PhMH"
